@@ -344,3 +344,74 @@ Proof.
   cbv zeta. split; [apply new_inv; lia|]. split; [reflexivity|]. split; [repeat constructor; cbn; lia|].
   vm_compute. reflexivity.
 Qed.
+
+(* ---- fsarray(strings, width) ------------------------------------------------------------------ *)
+Definition as_fs_cells (fill : atts) (o : operand) : list cell :=
+  match o with OStr s => map (fun ch => (ch, eff fill)) s | OFmt f => cells f end.
+
+Lemma fold_max_ge_acc : forall l acc, acc <= fold_left Z.max l acc.
+Proof. induction l as [|z l IH]; intros acc; cbn [fold_left]; [lia|]. etransitivity; [|apply IH]. lia. Qed.
+
+Lemma fold_max_le : forall l acc x, In x l -> x <= fold_left Z.max l acc.
+Proof.
+  induction l as [|y l IH]; intros acc x H; [destruct H|]. destruct H as [->|H]; cbn [fold_left].
+  - etransitivity; [|apply fold_max_ge_acc]. lia.
+  - apply IH, H.
+Qed.
+
+Lemma fresh_setslice_whole fill o w :
+  op_len o <= w ->
+  exists r, setslice_with_length (fresh_row fill) 0 (op_len o) o w = Ok r /\ cells r = op_cells o.
+Proof.
+  intros Hw. pose proof (op_len_cells o) as HX.
+  assert (Hse : 0 <= 0 <= op_len o) by lia.
+  pose proof (setslice_cells (fresh_row fill) 0 (op_len o) o w Hse) as H.
+  unfold setslice_ref in H. rewrite cells_fresh_row in H. cbn [length Nat.sub repeat app Nat.ltb Nat.leb bind] in H.
+  replace (Nat.ltb (Z.to_nat (op_len o)) 0) with false in H by (symmetry; apply Nat.ltb_ge; lia).
+  cbn [bind] in H. unfold list_splice in H. cbn [firstn skipn app] in H.
+  rewrite skipn_nil, app_nil_r in H.
+  change (Z.to_nat 0) with 0%nat in H. cbn [firstn Nat.sub repeat app] in H.
+  replace (w <? Z.of_nat (length (op_cells o))) with false in H by lia.
+  destruct (setslice_with_length (fresh_row fill) 0 (op_len o) o w) as [r|e]; cbn [res_map] in H; [|discriminate].
+  injection H as H. now exists r.
+Qed.
+
+Lemma op_len_as_fs fill o :
+  op_len (match o with OStr s => OFmt [mkChunk s fill] | OFmt f => OFmt f end) = op_len o.
+Proof. destruct o as [s|f]; [|reflexivity]. cbn. unfold chunk_len. cbn. lia. Qed.
+
+Lemma op_cells_as_fs fill o :
+  op_cells (match o with OStr s => OFmt [mkChunk s fill] | OFmt f => OFmt f end) = as_fs_cells fill o.
+Proof. destruct o as [s|f]; [|reflexivity]. cbn. now rewrite app_nil_r. Qed.
+
+(* fsarray(strings[, width]) with every string fitting the width: the array's rows show the strings
+   (a plain str carrying the constructor's formatting), its width is the given one or the longest string's *)
+Theorem fsarray_shows_strings strings width fill :
+  (forall w, width = Some w -> Forall (fun o => op_len o <= w) strings) ->
+  exists a, fsarray_of strings width fill = Ok a
+    /\ fa_cols a = match width with Some w => w | None => fold_left Z.max (map op_len strings) 0 end
+    /\ map cells (fa_rows a) = map (as_fs_cells fill) strings.
+Proof.
+  intros Hw. unfold fsarray_of.
+  set (w := match width with Some w => w | None => fold_left Z.max (map op_len strings) 0 end).
+  assert (Hfit : Forall (fun o => op_len o <= w) strings).
+  { destruct width as [w0|]; [apply Hw; reflexivity|].
+    apply Forall_forall. intros o Ho. unfold w. apply fold_max_le, in_map, Ho. }
+  replace (match width with Some w0 => existsb (fun l => l >? w0) (map op_len strings) | None => false end) with false.
+  2:{ destruct width as [w0|]; [|reflexivity]. symmetry. apply not_true_is_false. intros E.
+      apply existsb_exists in E as (l & Hl & Hgt). apply in_map_iff in Hl as (o & <- & Ho).
+      specialize (Hw w0 eq_refl). rewrite Forall_forall in Hw. specialize (Hw o Ho). lia. }
+  assert (M : exists rows,
+    map2_res (fun fs s => setslice_with_length fs 0 (op_len s)
+                (match s with OStr s0 => OFmt [mkChunk s0 fill] | OFmt f => OFmt f end) w)
+             (repeat (fresh_row fill) (length strings)) strings = Ok rows
+    /\ map cells rows = map (as_fs_cells fill) strings).
+  { clear Hw. clearbody w. induction strings as [|o strings IH]; [exists []; split; reflexivity|].
+    inversion Hfit as [|? ? Ho Hrest]; subst. destruct (IH Hrest) as (rows & E & P).
+    cbn [length repeat map2_res map].
+    destruct (fresh_setslice_whole fill (match o with OStr s0 => OFmt [mkChunk s0 fill] | OFmt f => OFmt f end) w) as (r & Er & Pr).
+    { rewrite op_len_as_fs. exact Ho. }
+    rewrite op_len_as_fs in Er. rewrite Er, E. exists (r :: rows). split; [reflexivity|].
+    cbn [map]. now rewrite Pr, op_cells_as_fs, P. }
+  destruct M as (rows & E & P). fold w. rewrite E. eexists. split; [reflexivity|]. split; [reflexivity|exact P].
+Qed.
